@@ -216,7 +216,9 @@ func vpInv(e *vEnv, assert bool) bool {
 		if !amev {
 			ok := vpAllCurrentCommitsValid(d, vpBlockHashFromCtx(d))
 			if assert {
-				vKnown("KF-1", e.kf1() && !ok)
+				if vWant("C01,C02") {
+					vKnown("KF-1", e.kf1() && !ok)
+				}
 				m.req("C01,C02", "INV.10.commits", e.kf1() || ok)
 			} else {
 				m.req("C01,C02", "INV.10.commits", ok)
